@@ -319,6 +319,9 @@ func oracleC10(c *oracleCtx) {
 		default:
 			s = randFragments(c.r, 1+c.r.Intn(14))
 		}
+		if c.r.Intn(12) == 0 {
+			s = "\ufeff" + s
+		}
 		checkTiling(c, s, c.r.Intn(4))
 		c.count(s)
 	}
